@@ -299,6 +299,15 @@ let handle fields =
         string_of_int (int_of_nat e.e_src) ^ show_origin e.e_origin ^ ":" ^
         (if e.e_c then field_of_ustr (nm_c_name p sc e) else "-") ^ ":" ^
         (if e.e_f then field_of_ustr (nm_f_impl fsc e) else "-") ^ ":" ^ field_of_ustr (nm_f_generic e)) (expand fs))
+  | ["namesw"; prefix; scope; fscope; fns; flags] ->
+      (* the same with wrap flags per declared function: "TT,TF,FF" = (wrap_c, wrap_fortran) *)
+      let fs = if fns = "" then [] else List.map fn_of (String.split_on_char ';' fns) in
+      let ws = if flags = "" then [] else List.map (fun w -> (w.[0] = 'T', w.[1] = 'T')) (String.split_on_char ',' flags) in
+      let p, sc, fsc = ustr_of_field prefix, ustr_of_field scope, ustr_of_field fscope in
+      String.concat ";" (List.map (fun e ->
+        string_of_int (int_of_nat e.e_src) ^ show_origin e.e_origin ^ ":" ^
+        (if e.e_c then field_of_ustr (nm_c_name p sc e) else "-") ^ ":" ^
+        (if e.e_f then field_of_ustr (nm_f_impl fsc e) else "-") ^ ":" ^ field_of_ustr (nm_f_generic e)) (expand_w fs ws))
   | ["pycompile"; ops] ->
       (* Python-level operations -> the capsule operations a reference-counting extension performs (PyHandles.compile) *)
       let pop_of t = match String.split_on_char ':' t with
